@@ -197,7 +197,15 @@ Definition check_step (pre : state) (o : obs) : list mismatch :=
   nonempty MSnaps (diff_table n_id snap_eqb (snaps m) (snaps p)) ++
   (if touches_other_sub pre (o_op o) m p then [MNote "other-subscription"] else []) ++
   nonempty MCols (diff_cols d_id (del_cols p) "d.row-missing" "d.row-extra" (dels m) (dels p) ++
-                  diff_cols s_id sub_cols "s.row-missing" "s.row-extra" (subs m) (subs p)).
+                  diff_cols s_id sub_cols "s.row-missing" "s.row-extra" (subs m) (subs p) ++
+                  (* the same for the delivery rows CREATED by this step only (tagged "new:"): the
+                     laws about fresh deliveries -- first attempt at publish/forward time plus
+                     the injected delay, retention from then -- are owned by other properties
+                     than the laws about leases on existing rows *)
+                  (let fresh := fun d => negb (has_id d_id (d_id d) (dels pre)) in
+                   map (fun c => String.append "new:" c)
+                       (diff_cols d_id (del_cols p) "d.row-missing" "d.row-extra"
+                                  (filter fresh (dels m)) (filter fresh (dels p))))).
 
 (* a history: observed steps from the empty database; the pre-state of a step is the
    observed post-state of the one before. Returns the failing steps only. *)
